@@ -94,6 +94,7 @@ func (p *c05) Rule() string {
 		"types (exhaustive): every JSON-marshalable typed value of the catalogue (JSON-like kinds, all numeric widths, typed slices/maps/structs/pointers, every falsy zero) bound by :p=\"v\", v-bind:p=\"v\", :p=\"o.k\", with/without a colliding includer variable, observed through | json and | type in the component and one level further down (:pb=\"pa\"); " +
 		"multi (exhaustive): the same component file included 1-3 times in a row with every combination of {omitted, static, {{ }}, bound} for pa x front-matter x includer variable x :required; " +
 		"propnames: 22 prop names that coincide with words the engine uses elsewhere (required, require, content, layout, slot, name, key, is, ref, ...) x {static, {{ }}, bound, shorthand static, shorthand bound} x {listed in the component's :required or not} x {includer has a variable of that name or not} x {page level, inside v-for} x {no condition, v-if, v-else on the include tag itself}: the prop arrives, satisfies :required, shadows the includer's variable inside and is gone after; " +
+		"afterslot: a component with props and front-matter read before and after its <slot>, the includer supplying content that binds variables itself (component with props, two components, shorthand, loop, loop with include, scoped slot template, the same component nested) x {include, shorthand} x entry: after the slot the component has exactly its own bindings, an include after the slot passes its :required, nothing reaches the includer; " +
 		"selfrec: a tree component that includes itself through its own shorthand tag / through <template include>, 3 levels deep, Template and Vue entry; " +
 		"names: WithComponents() mapping table for nested directories, shorthand at page level and inside a component; " +
 		"tree (seeded random, 40 000 quick / 320 000 thorough): include trees of depth <= 3 and fan-out <= 3 over the name universe {pa,pb,pc,pd}, random prop forms, front-matter subsets, :required subsets in 5 spellings (csv, spaces, :require, split over :required+:require, repeated :require), component files reused by several includes, includes inside v-for, shorthand at any level, typed page data; " +
@@ -103,11 +104,13 @@ func (p *c05) Rule() string {
 func (p *c05) nTree(ctx core.Ctx) int { return ctx.Pick(40000, 320000) }
 
 func (p *c05) Plan(ctx core.Ctx) int {
-	return c05NGrid + c05NTypes() + c05NMulti + c05NNames() + p.nTree(ctx) + c05NWrap() + c05NPNames() + c05NSelfRec()
+	return c05NGrid + c05NTypes() + c05NMulti + c05NNames() + p.nTree(ctx) + c05NWrap() + c05NPNames() + c05NSelfRec() + c05NSlot()
 }
 
 func (p *c05) Gen(ctx core.Ctx, i int) any {
-	if n := c05NGrid + c05NTypes() + c05NMulti + c05NNames() + p.nTree(ctx); i >= n+c05NWrap()+c05NPNames() {
+	if n := c05NGrid + c05NTypes() + c05NMulti + c05NNames() + p.nTree(ctx); i >= n+c05NWrap()+c05NPNames()+c05NSelfRec() {
+		return c05GenSlot(i - n - c05NWrap() - c05NPNames() - c05NSelfRec())
+	} else if i >= n+c05NWrap()+c05NPNames() {
 		return c05GenSelfRec(i - n - c05NWrap() - c05NPNames())
 	} else if i >= n+c05NWrap() {
 		return c05GenPNames(i - n - c05NWrap())
@@ -727,6 +730,10 @@ func (p *c05) Exec(ctx core.Ctx, cc any) core.Obs {
 	var o core.Obs
 	if c.Part == "wrap" && c.Wrap != nil {
 		c05ExecWrap(c, &o)
+		return o
+	}
+	if c.Part == "afterslot" && c.PN != nil {
+		c05ExecSlot(c, &o)
 		return o
 	}
 	if c.Part == "selfrec" && c.PN != nil {
